@@ -95,13 +95,26 @@ def scenarios(tier, seed):
                 continue
             for c in sorted(cw) if cw is not None else [-2]:
                 scen.append(dict(b, startSp=ssp, stopSp=tsp, cwd=c))
+    # chains that run through directories named spokfile (a start / stop directory that is itself called spokfile)
+    thr = [b for b in base if any(l["spok"] == "dir" for l in b["levels"][:-1])]
+    for b in rnd.sample(thr, min(len(thr), 2500 if tier == "quick" else 20000)):
+        scen.append(dict(b, through=True))
+    # deep chains: the spokfile far above the start directory (a walk that gives up after a fixed number of levels)
+    none_ = {"spok": "none", "before": False, "after": False}
+    for depth in (40, 130):
+        for hit in (0, 3, depth // 2):
+            for stop in (0, hit, hit + 1):
+                lv = [dict(none_) for _ in range(depth + 1)]
+                lv[hit] = {"spok": "file", "before": True, "after": True}
+                scen.append({"id": 0, "levels": lv, "u": none_, "start": depth, "stop": stop})
     # de-duplicate
     seen, out = set(), []
     for s in scen:
+        s.setdefault("through", False)
         s.setdefault("startSp", "clean")
         s.setdefault("stopSp", "clean")
         s.setdefault("cwd", -2)
-        k = json.dumps({x: s[x] for x in ("levels", "u", "start", "stop", "startSp", "stopSp", "cwd")}, sort_keys=True)
+        k = json.dumps({x: s[x] for x in ("levels", "u", "start", "stop", "startSp", "stopSp", "cwd", "through")}, sort_keys=True)
         if k not in seen:
             seen.add(k)
             s["id"] = len(out) + 1
@@ -199,7 +212,7 @@ def run(ctx):
     seen = set()
     for s, r in bad:
         shape = (r.get("outcome"), s["start"] == s["stop"], s["start"] == -1 or s["stop"] == -1 or s["stop"] > s["start"],
-                 s["levels"][s["stop"]]["before"] if s["stop"] >= 0 else None, s["startSp"], s["stopSp"])
+                 s["levels"][s["stop"]]["before"] if s["stop"] >= 0 else None, s["startSp"], s["stopSp"], s["through"], len(s["levels"]) > 8)
         if shape in seen:
             continue
         seen.add(shape)
@@ -209,8 +222,10 @@ def run(ctx):
             ctx.unreproduced = getattr(ctx, "unreproduced", 0) + 1
             continue
         vlib.report(ctx, "Conforms_C17:%s:%s:%s-%s" % (again.get("outcome"), "unconstrained" if shape[2] else ("start=stop" if shape[1] else "below"), s["startSp"], s["stopSp"]),
-                    "Find(start=L%s [%s], stop=L%s [%s], cwd=L%s) over levels %s (U=%s) => %s level=%s" % (
-                        s["start"], s["startSp"], s["stop"], s["stopSp"], s["cwd"], s["levels"], s["u"], again.get("outcome"), again.get("level")),
+                    "Find(start=L%s [%s], stop=L%s [%s], cwd=L%s%s) over %d levels %s (U=%s) => %s level=%s" % (
+                        s["start"], s["startSp"], s["stop"], s["stopSp"], s["cwd"], ", chain through directories named spokfile" if s["through"] else "",
+                        len(s["levels"]), [l for l in s["levels"] if l["spok"] != "none"][:6] if len(s["levels"]) > 8 else s["levels"], s["u"],
+                        again.get("outcome"), again.get("level")),
                     {"property": "C17", "family": "find", "scenario": s, "observed": again})
         if len(ctx.violations) >= 6:
             break
@@ -244,6 +259,7 @@ def replay(ctx, path):
     s.setdefault("startSp", "clean")
     s.setdefault("stopSp", "clean")
     s.setdefault("cwd", -2)
+    s.setdefault("through", False)
     again = drive(ctx, driver, [s], 0)[0]
     v = judge(ctx, [tla_rec(s, again)])
     log("observed: %s" % again)
